@@ -1301,6 +1301,47 @@ pub(crate) mod verif_probe {
                 let ids: Vec<usize> = pool.get_addresses_from_host(&format!("host-{}", v["host"].as_str().unwrap())).iter().map(|a| a.id).collect();
                 Some(json!({"ids": ids}))
             }
+            "reload_paused" => {
+                // PAUSE; a client parks in wait_paused() on the pool object it holds; a RELOAD re-creates that pool (changed definition); RESUME on every
+                // pool of the new map: is the parked client released?
+                let rt = tokio::runtime::Builder::new_multi_thread().worker_threads(2).enable_all().build().unwrap();
+                Some(rt.block_on(async move {
+                    let tag = std::time::SystemTime::now().duration_since(std::time::UNIX_EPOCH).unwrap().as_nanos();
+                    let mk = |port: u16| {
+                        let mut pool = crate::config::Pool::default();
+                        pool.shards.clear();
+                        pool.shards.insert("0".to_string(), crate::config::Shard { database: "db".to_string(), mirrors: None,
+                            servers: vec![crate::config::ServerConfig { host: "127.0.0.1".to_string(), port, role: Role::Primary }] });
+                        let mut user = User::default();
+                        user.username = "u".to_string();
+                        user.password = Some("pw".to_string());
+                        pool.users.clear();
+                        pool.users.insert("0".to_string(), user);
+                        pool
+                    };
+                    let name = format!("paused_{}", tag);
+                    let mut a = crate::config::Config::default();
+                    a.general.validate_config = false;
+                    a.pools.clear();
+                    a.pools.insert(name.clone(), mk(5432));
+                    crate::config::verif_probe::set_config(a.clone());
+                    let csm: ClientServerMap = Arc::new(Mutex::new(HashMap::new()));
+                    if ConnectionPool::from_config(csm.clone()).await.is_err() { return json!({"error": "first from_config failed"}); }
+                    let old = get_pool(&name, "u").unwrap();
+                    old.pause();
+                    let held = old.clone();
+                    let parked = tokio::spawn(async move { held.wait_paused().await; });
+                    tokio::time::sleep(Duration::from_millis(100)).await;
+                    let mut b = a.clone();
+                    b.pools.insert(name.clone(), mk(6543));
+                    crate::config::verif_probe::set_config(b);
+                    if ConnectionPool::from_config(csm).await.is_err() { return json!({"error": "second from_config failed"}); }
+                    let replaced = get_pool(&name, "u").map(|p| !Arc::ptr_eq(&p.databases, &old.databases)).unwrap_or(false);
+                    for (_id, p) in get_all_pools() { p.resume(); }
+                    let released = timeout(Duration::from_millis(800), parked).await.is_ok();
+                    json!({"pool_replaced": replaced, "released_after_resume": released})
+                }))
+            }
             "pool_try_unban" => {
                 let (pool, addrs) = bare_pool(&v["roles"], v["ban_time"].as_i64().unwrap());
                 let now = chrono::offset::Utc::now().naive_utc();
